@@ -69,8 +69,14 @@ def _chunk(draw, text):
         n = draw(st.integers(100, 400) if text else st.integers(200, 1500))
     else:
         n = draw(st.integers(1, 30))
-    return {"n": n, "seed": draw(st.integers(0, 2 ** 32 - 1)),
-            "layout": draw(st.sampled_from(["contig", "contig", "contig", "strided"]))}
+    c = {"n": n, "seed": draw(st.integers(0, 2 ** 32 - 1)),
+         "layout": draw(st.sampled_from(["contig", "contig", "contig", "strided"]))}
+    if not text and draw(st.integers(0, 39)) == 0:
+        # a binary chunk whose size sits next to a power-of-two boundary a buffered writer might split at
+        # (the row count follows from the row size of the form when the chunk is built)
+        c["target_bytes"] = draw(st.sampled_from([65536, 2 ** 20, 2 ** 21])) + draw(st.sampled_from([0, 1, 4096]))
+        c["layout"] = "contig"
+    return c
 
 
 def _bad_kinds_for(descr, text):
@@ -196,7 +202,10 @@ def _build(descr, text, chunk):
     if text:
         a = RT.build_exact(t, seed=chunk["seed"], nrows=chunk["n"])
     else:
-        a = RT.build_binary(t, seed=chunk["seed"], nrows=chunk["n"])
+        n = chunk["n"]
+        if "target_bytes" in chunk:
+            n = chunk["target_bytes"] // T.dtype_of(t).itemsize + 2
+        a = RT.build_binary(t, seed=chunk["seed"], nrows=n)
     return a
 
 
@@ -351,6 +360,8 @@ def _check_header(h, m, what):
         require(got == want and got.descr == want.descr, "%s: _DTYPE %r, written %r", what, h["_DTYPE"], want.descr)
         require(h.get("_DELIM") is None, "%s: binary file has _DELIM=%r", what, h.get("_DELIM"))
     for k, v in (m.header or {}).items():
+        if H.is_reserved(k):
+            continue            # reserved names need not survive (statement)
         require(k in h, "%s: user header key %r given at creation is missing (keys %r)", what, k, sorted(h))
         require(H.equal_typed(h[k], v), "%s: user header key %r is %r, given at creation: %r", what, k, h[k], v)
     extra = set(h) - set(m.header or {}) - {"_SIZE", "_DTYPE", "_VERSION", "_DELIM"}
@@ -654,6 +665,8 @@ def classify(case):
         if "chunk" in op:
             if op["chunk"]["n"] > 30:
                 labs.add("chunk:big")
+            if "target_bytes" in op["chunk"]:
+                labs.add("chunk:>=64KiB" if op["chunk"]["target_bytes"] < 2 ** 20 else "chunk:>=1MiB")
             if op["chunk"]["layout"] == "strided":
                 labs.add("chunk:strided")
         if cur is not None:
